@@ -152,14 +152,32 @@ def case_features(c):
 # ------------------------------------------------------------------ running / parsing
 
 def run_lines(exe, lines, mode=None, timeout=3000):
-    path = os.path.join(vlib.BUILD, "C17", "in_%d.txt" % os.getpid())
-    os.makedirs(os.path.dirname(path), exist_ok=True)
-    open(path, "w").write("\n".join(lines) + "\n")
-    rc, out, err = vlib.sh2("ulimit -s unlimited 2>/dev/null; '%s' '%s' %s" % (exe, path, mode or ""), timeout=timeout)
-    os.remove(path)
-    res = out.splitlines()
-    if rc != 0 or len(res) != len(lines):
-        raise RuntimeError("%s failed rc=%s (%d of %d lines)\n%s" % (exe, rc, len(res), len(lines), err[-2000:]))
+    """run `exe` over the case lines, split into chunks processed in parallel; order preserved"""
+    import subprocess
+    bdir = os.path.join(vlib.BUILD, "C17")
+    os.makedirs(bdir, exist_ok=True)
+    nchunk = max(1, min(8, vlib.NCPU // 2, (len(lines) + 199) // 200))
+    size = (len(lines) + nchunk - 1) // nchunk if lines else 1
+    procs = []
+    for k in range(nchunk):
+        part = lines[k * size:(k + 1) * size]
+        if not part: continue
+        path = os.path.join(bdir, "in_%d_%d.txt" % (os.getpid(), k))
+        open(path, "w").write("\n".join(part) + "\n")
+        pr = subprocess.Popen("ulimit -s unlimited 2>/dev/null; '%s' '%s' %s" % (exe, path, mode or ""), shell=True,
+                              stdout=subprocess.PIPE, stderr=subprocess.PIPE, text=True, errors="replace")
+        procs.append((pr, path, len(part)))
+    res = []
+    for pr, path, n in procs:
+        try:
+            out, err = pr.communicate(timeout=timeout)
+        except subprocess.TimeoutExpired:
+            pr.kill(); out, err = "", "[timeout]"
+        os.remove(path)
+        got = out.splitlines()
+        if pr.returncode != 0 or len(got) != n:
+            raise RuntimeError("%s failed rc=%s (%d of %d lines)\n%s" % (exe, pr.returncode, len(got), n, err[-2000:]))
+        res += got
     return res
 
 
